@@ -60,6 +60,7 @@ ALPHAS = (-1, 2, 3)
 SHIFT_VALS = (-2, -1, 0, 1, 2)
 CLIPS = ('default', 'none', 'start', 'end', 'both')
 JOIN_DTS = (0.5, 0.25)
+DEC_DTS = ('0.1', '0.01', '0.02', '0.005')
 # object histories: public AccSignal operations performed on the object BEFORE it is handed to the surface functions
 HISTORIES = ('velocity-read', 'rect-series', 'other-record')
 FNS = (('energy', 'calc_surface_energy'), ('cum', 'calc_cum_abs_surface_energy'), ('motions', 'get_time_shift_motions'))
@@ -95,6 +96,11 @@ def build(tier, seed):
         for nodal in (True, False):
             for red in REDS:
                 cases.append({'kind': 'energy', 'w': list(w), 'nodal': nodal, 'red': red})
+    # decimal time steps: travel times that are whole multiples of dt/2 as a user writes them (k*dt/2 evaluated in floats, and
+    # the rounded decimal), whose float quotient 2*tt/dt lands on, just below or just above the whole number
+    for dts in DEC_DTS:
+        for w in words(SIGMA, 2, 3, nonzero=True):
+            cases.append({'kind': 'decimal', 'w': list(w), 'dt': dts, 'kmax': 12 if quick else 45})
     return {
         'cases': cases,
         'rule': 'energy: all non-zero words over {-1,0,2} of length 2..%d, dt = 0.5, x nodal in {T,F} x reductions '
@@ -123,7 +129,9 @@ def build(tier, seed):
                    'energy_record_dtypes': [d[0] for d in ENERGY_DTYPES], 'extra_alphas_full_series': [a[0] for a in EXTRA_ALPHAS]},
         'required_classes': ['nodal', 'anti-nodal', 'red-unit', 'red-scalar', 'red-array', 'tt-zero', 'tt-subsample',
                              'tt-fractional', 'tt-integer', 'single', 'batch', 'trim', 'start', 'stt>0',
-                             'reference-compared', 'energy-has-negative-values', 'cum-increases', 'cum-identically-zero',
+                             'quotient-exact', 'quotient-below', 'quotient-above', 'record-starts-nonzero',
+                             'reference-compared', 'start-shift-compared', 'start-shift-nonzero-possible',
+                             'energy-has-negative-values', 'cum-increases', 'cum-identically-zero',
                              'row-vs-single', 'row-shorter-than-batch', 'alpha-scaling',
                              'argument-array-reused', 'cum-first-sample-nonzero-energy',
                              'history-velocity-read', 'history-rect-series', 'history-other-record',
@@ -137,8 +145,10 @@ def build(tier, seed):
         'assumptions': ['sample values in {-1,0,2}; lengths above the bound not examined; dt = 0.5 only for the energy '
                         'functions (dyadic, so int() of the delays is decided)',
                         'travel times, reductions and stt only on the menus; reductions given as floats or numpy arrays',
-                        'reference decides (trim,start) = (F,F) and (T,F); for start=True only the stated relations '
-                        '(length when trimmed, row = single, monotonicity, zero, alpha^2) are checked - the property '
+                        'reference decides (trim,start) = (F,F) and (T,F); for start=True the stated relations '
+                        '(length when trimmed, row = single, monotonicity, zero, alpha^2) are checked and, where stt and the travel '
+                        'time are whole steps, that the returned energy / motion series is the reference series moved by SOME whole '
+                        'number of samples not larger than the travel times involved (zero before its start) - the property '
                         'does not define the start alignment itself',
                         'first element of the cumulative absolute change: |first energy of the series returned for the same '
                         'options| (change from rest) or 0 (no change inside the series yet) are both accepted',
@@ -153,6 +163,9 @@ def build(tier, seed):
                         'list is not accepted by the unchanged tree)',
                         'start=True: the statement does not define by how many samples a row is moved; stt and travel times with '
                         'different fractional parts of a step are in the menus, but only the stated relations are checked for them',
+                        'decimal time steps %s (words of length <= 3, unit reductions, travel times k*dt/2 as float product and as '
+                        'rounded decimal, k up to the bound): accepted is the defined series for the exact quotient of the floats passed '
+                        'or for the whole number within 1e-9 of it' % (list(DEC_DTS),),
                         'join helpers: non-negative integer shifts; signal variant with time shifts that are exact '
                         'multiples of a dyadic dt'],
     }
@@ -165,10 +178,11 @@ def ffloor(q):
     return q.numerator // q.denominator
 
 
-def ref_series(a, dt, tt, nodal, up, down, total_len):
+def ref_series(a, dt, tt, nodal, up, down, total_len, delay=None):
     """Acceleration and energy series of one travel time, `total_len` samples. All Fractions."""
     n = len(a)
-    delay = 2 * tt / dt                      # in samples
+    if delay is None:
+        delay = 2 * tt / dt                  # in samples
     acc = []
     for j in range(total_len):
         upw = (a[j] if j < n else Fraction(0)) * up
@@ -450,6 +464,53 @@ def run_energy(case):
                                     got = None
                                 r.expect_close('cum.definition', s2, got, fl(de), rtol=1e-12,
                                                atol=at_e, scale=float(sum(de)))
+                    elif key in ('energy', 'motions'):
+                        # start=True: the series is still the defined one, looked at in another time frame.  Where stt and the
+                        # travel time are whole steps the move is a whole number of samples, of at most the travel times involved;
+                        # WHICH number the statement does not say - so: some admissible integer move must reproduce the
+                        # reference on the overlap, with rest (zero) before the series starts (anything is accepted behind the end
+                        # of the computed series, where the library pads).
+                        qs = Fraction(str(stt)) / dt
+                        for i, t in enumerate(tts):
+                            qt = Fraction(t) / dt
+                            if qs.denominator != 1 or qt.denominator != 1:
+                                r.disabled['start-shift: stt or travel time not a whole number of steps'] += 1
+                                continue
+                            acc_ref, e_ref = refs[i]
+                            full = fl(e_ref if key == 'energy' else acc_ref)
+                            at = at_e if key == 'energy' else at_acc
+                            if not np.any(np.abs(full) > at):
+                                r.disabled['start-shift: reference series identically zero'] += 1
+                                continue
+                            s2 = dict(sub, row=i) if batch else sub
+                            smax = int(max(qs, qt)) + 1
+                            x = rows[i]
+                            good = []
+                            for sh in range(-smax, smax + 1):
+                                okk = len(x) > 0
+                                nover = 0
+                                for j in range(len(x)):
+                                    q = j - sh
+                                    if q < 0:
+                                        if abs(x[j]) > at:
+                                            okk = False
+                                            break
+                                    elif q < len(full):
+                                        nover += 1
+                                        if not abs(x[j] - full[q]) <= at + 1e-12 * abs(full[q]):
+                                            okk = False
+                                            break
+                                if okk and nover >= min(len(full), n) - smax:
+                                    good.append(sh)
+                            r.cls('start-shift-compared')
+                            if len(good) > 1:
+                                r.cls('start-shift-ambiguous')
+                            if good and good[0] != 0 or len(good) > 1:
+                                r.cls('start-shift-nonzero-possible')
+                            r.n_cmp += 1
+                            r.expect(key + '.start-is-a-shift', s2, bool(good),
+                                     'with start=True the returned series is not the defined series moved by a whole number of '
+                                     'samples (|move| <= %d examined)' % smax, observed=x, expected=full)
                     # cumulative absolute change: non-decreasing, zero case
                     if key == 'cum':
                         for i, t in enumerate(tts):
@@ -678,9 +739,81 @@ def _shift_body(r, w, tag, mult, off, typ):
                            rtol=1e-12)
 
 
+def run_decimal(case):
+    """Decimal time steps.  The delay of the wave is 2*tt/dt samples; for the float numbers actually passed this quotient is a
+    rational next to the whole number k the caller meant.  Accepted: the defined series for the exact quotient of the floats
+    passed, or for the whole number next to it (within 1e-9 samples) - a record that starts with a non-zero sample jumps at t = 0,
+    so the two differ there by a whole sample value and the statement does not say which is meant (rounding-level tie);
+    anything else (e.g. a delay of k-1 samples) is a violation."""
+    r = Res()
+    w = [int(v) for v in case['w']]
+    n = len(w)
+    dtf = float(case['dt'])
+    dt = Fraction(dtf)
+    a = [Fraction(v) for v in w]
+    amax = float(max(abs(v) for v in w))
+    r.nontrivial += 1
+    tts = []
+    for k in range(1, case['kmax'] + 1):
+        for t in (k * dtf / 2, float(repr(round(k * dtf / 2, 10)))):
+            if t not in tts:
+                tts.append(t)
+    sig = eqsig.AccSignal(np.array(w, dtype=float), dtf)
+    for t in tts:
+        q = 2 * Fraction(t) / dt
+        k = round(q)
+        fq = 2 * t / dtf
+        r.cls('quotient-exact' if fq == k else ('quotient-below' if fq < k else 'quotient-above'))
+        if a[0] != 0:
+            r.cls('record-starts-nonzero')
+        total = n + int(k) + 1
+        cands = [ref_series(a, dt, Fraction(t), nodal, Fraction(1), Fraction(1), total, delay=d)
+                 for nodal in (True, False) for d in ([q] if q == k else [q, Fraction(k)])]
+        per = len(cands) // 2
+        for ni, nodal in enumerate((True, False)):
+            for trim in (False, True):
+                for key, attr in FNS:
+                    sub = {'w': w, 'dt': dtf, 'tt': t, 'k': int(k), 'nodal': nodal, 'trim': trim, 'fn': key}
+                    r.states += 1
+                    ok, out = r.call(key + '.decimal-dt', sub, getattr(surface, attr), sig, t, nodal=nodal, trim=trim)
+                    if not ok:
+                        continue
+                    try:
+                        x = np.array(out, dtype=float)
+                        if x.ndim != 1 or len(x) < n or (trim and len(x) != n):
+                            raise ValueError('shape %r for a record of %d samples (trim=%s)' % (x.shape, n, trim))
+                    except Exception as e:
+                        r.fail(key + '.decimal-dt', sub, 'malformed result: %s' % e, observed=out)
+                        continue
+                    good = False
+                    wants = []
+                    for acc_ref, e_ref in cands[ni * per:(ni + 1) * per]:
+                        if key == 'motions':
+                            want, at = fl(acc_ref), 1e-10 * amax
+                        elif key == 'energy':
+                            want, at = fl(e_ref), 1e-10 * (amax * dtf * (n + k)) ** 2
+                        else:
+                            want = np.concatenate([[0.0], np.cumsum(np.abs(np.diff(fl(e_ref))))])
+                            at = 1e-10 * (amax * dtf * (n + k)) ** 2 * (n + k)
+                        m = min(len(x), len(want))
+                        wants.append(want[:m])
+                        if np.all(np.abs(x[:m] - want[:m]) <= at + 1e-10 * np.abs(want[:m])):
+                            good = True
+                    r.n_cmp += 1
+                    r.transitions += 1
+                    r.expect(key + '.decimal-dt', sub, good,
+                             'series is not the defined one for a delay of 2*tt/dt = %.17g samples (nor for %d samples)'
+                             % (float(q), int(k)), observed=x, expected=wants[0])
+    same = bool(np.array_equal(np.asarray(sig.values), np.array(w, dtype=float)))
+    r.expect('record-unchanged', {'w': w, 'dt': dtf}, same, 'the signal object was modified by the surface functions')
+    return r
+
+
 def run_case(case):
     if case['kind'] == 'shift':
         return run_shift(case)
+    if case['kind'] == 'decimal':
+        return run_decimal(case)
     return run_energy(case)
 
 
@@ -694,6 +827,11 @@ def snippet(case, v):
                 "    print(ts.join_values_w_shifts(w, sh, jtype=jt))\n"
                 "    print(ts.join_sig_w_time_shift(eqsig.Signal(w, sub.get('dt', 0.5)), sh * sub.get('dt', 0.5), jtype=jt))\n"
                 % (sub,))
+    if case['kind'] == 'decimal':
+        return ("import numpy as np, eqsig\nfrom eqsig import surface as sf\nsub = %r\n"
+                "a = eqsig.AccSignal(np.array(sub['w'], float), sub['dt'])\nprint(2 * sub['tt'] / sub['dt'])\n"
+                "print(sf.get_time_shift_motions(a, sub['tt'], nodal=sub['nodal'], trim=sub['trim']))\n"
+                "print(sf.calc_surface_energy(a, sub['tt'], nodal=sub['nodal'], trim=sub['trim']))\n" % (sub,))
     return ("import numpy as np, eqsig\nfrom eqsig import surface as sf\n"
             "sub = %r\nARR_UP = %r\nARR_DOWN = %r\n"
             "w = np.array(sub['w'], float) * sub.get('alpha', 1); tt = sub['tt']\n"
